@@ -634,7 +634,11 @@ def run(ctx):
     struct_bad = part_encoder_structure(ctx)
     n_tpl = 0
     if tpl_err is None:
-        n_tpl = part_templates(ctx, tie["ok"])
+        try:
+            n_tpl = part_templates(ctx, tie["ok"])
+        except Exception as e:  # noqa  (an observed template that misbehaves badly can make the evaluator run away)
+            report(ctx, "correspondence-broken", "running the observed templates in Coq failed",
+                   {"error": f"{type(e).__name__}: {e}"[:600]}, "tplrun-error")
     found = any(v["kind"] == "failing-input" for v in ctx.violations) or ctx.known_hits
     # ---- verdicts for broken ties / proofs (after Search = the exits + size oracle above)
     if gen_err is not None:
@@ -658,7 +662,7 @@ def run(ctx):
                 fl, fv = TP.differing_shapes("norm")
                 prs = TP.norm_pairs()
                 dl = []
-                dv = [A.eth_ty(a) + " -> " + A.eth_ty(b_) for (a, b_), ok in zip(prs, fl) if not ok]
+                dv = [A.coq_ty(a) + " -> " + A.coq_ty(b_) for (a, b_), ok in zip(prs, fl) if not ok]
             else:
                 fl, fv = TP.differing_shapes("enc")
                 fam = TP.shape_family()
